@@ -135,8 +135,20 @@ class EncoderWalker:
             return
         if isinstance(node, ast.IfExp):
             t = ast.unparse(node.test)
-            self.contribution(node.body, env, var, line, path + [(t, True)], assign)
-            self.contribution(node.orelse, env, var, line, path + [(t, False)], assign)
+            env_t, env_f = dict(env), dict(env)
+            rs = self.window_restrictions(node.test, env)
+            if rs:
+                name = rs[0][0]
+                f_, ops_ = env[name]
+                env_t[name] = (f_, ops_ + tuple(('restrict', op, k) for _, op, k in rs))
+                if len(rs) == 1:
+                    env_f[name] = (f_, ops_ + (('restrict', NEG[rs[0][1]], rs[0][2]),))
+            if isinstance(node.orelse, ast.Constant) and node.orelse.value == 0:
+                # `<bits> if <test> else 0`: nothing is contributed on the other side
+                self.contribution(node.body, env_t, var, line, path + [(t, True)], assign)
+                return
+            self.contribution(node.body, env_t, var, line, path + [(t, True)], assign)
+            self.contribution(node.orelse, env_f, var, line, path + [(t, False)], assign)
             return
         if isinstance(node, ast.Name) and node.id in self.mask_vars:
             return  # v = bits1[x]-like carry handled by caller
@@ -159,6 +171,31 @@ class EncoderWalker:
                 if isinstance(left, ast.Name) and left.id in env:
                     return left.id, env[left.id][0], OPS[type(test.ops[0])], k.value, False
         return None
+
+    def window_restrictions(self, test, env):
+        """[(name, op, K)] for `NAME op K`, `abs(NAME) < K` / `<= K`, `-K < NAME < K` over a field-bound local name"""
+        if isinstance(test, ast.Compare) and len(test.ops) == 1 and type(test.ops[0]) in OPS and isinstance(test.comparators[0], ast.Constant) \
+                and isinstance(test.comparators[0].value, int):
+            k, op = test.comparators[0].value, OPS[type(test.ops[0])]
+            l = test.left
+            if isinstance(l, ast.Name) and l.id in env:
+                return [(l.id, op, k)]
+            if isinstance(l, ast.Call) and isinstance(l.func, ast.Name) and l.func.id == 'abs' and len(l.args) == 1 and isinstance(l.args[0], ast.Name) \
+                    and l.args[0].id in env and op in ('<', '<='):
+                return [(l.args[0].id, op, k), (l.args[0].id, '>' if op == '<' else '>=', -k)]
+        if isinstance(test, ast.Compare) and len(test.ops) == 2 and isinstance(test.comparators[0], ast.Name) and test.comparators[0].id in env \
+                and all(type(o) in OPS for o in test.ops):
+            lo, hi = test.left, test.comparators[1]
+            try:
+                lo_v, hi_v = ast.literal_eval(lo), ast.literal_eval(hi)
+            except Exception:
+                return []
+            nm = test.comparators[0].id
+            flip = {'<': '>', '<=': '>=', '>': '<', '>=': '<='}
+            o1, o2 = OPS[type(test.ops[0])], OPS[type(test.ops[1])]
+            if o1 in flip and o2 in flip:
+                return [(nm, flip[o1], lo_v), (nm, o2, hi_v)]
+        return []
 
     def walk(self, body, env, path):
         for st in body:
@@ -220,6 +257,14 @@ class EncoderWalker:
                 if r_ and not r_[2]:
                     env[name] = (r_[0], r_[1])  # local alias of an attribute: `ring_sizes = a.ring_sizes`
                     return
+                if name not in env and isinstance(st.value, ast.BinOp):
+                    try:
+                        aff, ops_, _ = self.affine(st.value, env)
+                    except AnalysisError:
+                        aff = None
+                    if aff is not None and {k: v for k, v in aff.items() if v} == {'isotope': 1, 'mdl_isotope': -1}:
+                        env[name] = ('isotope', ops_)  # shift = a.isotope - a.mdl_isotope: the relative isotope the field is about
+                        return
                 if name in env:
                     if isinstance(st.value, ast.Constant) and isinstance(st.value.value, int):
                         f, ops = env[name]
